@@ -1802,6 +1802,15 @@ func RunFrame(frame *py.Frame) (res py.Object, err error) {
 		return nil, py.ExceptionNewf(py.SystemError, "vm: instruction out of range - code most likely finished already")
 	}
 
+	// The recursion limit
+	if frame.Context != nil {
+		store := frame.Context.Store()
+		if err := store.EnterFrame(); err != nil {
+			return nil, err
+		}
+		defer store.LeaveFrame()
+	}
+
 	var opcode OpCode
 	var arg int32
 	opcodes := frame.Code.Code
